@@ -389,7 +389,17 @@ func noteKnown(id string) {
 
 // settle waits (up to ~1 s) for the goroutine count to come back to the baseline; returns a dump of gtree goroutines otherwise.
 func settle(before int) string {
-	deadline := time.Now().Add(time.Second)
+	first := settleFor(before, time.Second)
+	if first == "" {
+		return ""
+	}
+	// on a loaded machine a goroutine that is merely slow must not be taken for one that is stuck:
+	// give what is left a few more seconds before calling it a leak
+	return settleFor(before, 4*time.Second)
+}
+
+func settleFor(before int, d time.Duration) string {
+	deadline := time.Now().Add(d)
 	for time.Now().Before(deadline) {
 		if runtime.NumGoroutine() <= before {
 			return ""
